@@ -39,7 +39,7 @@ func c12(p *Prog, r *Report) {
 		} else {
 			et, ht := s.callTerm(exp[0]), s.callTerm(htf[0])
 			r.Check(arg(et, 1).String() == `lit:"ECDSA Key Blind"`, R1, "DST = \"ECDSA Key Blind\"", p.InstrPos(exp[0]), "domain separation tag bound", "DST is "+arg(et, 1).String())
-			msg := "cat(make(bin<>>>(bin<+>(call<(*math/big.Int).BitLen>(param:1.D), const:7), const:3), fill<(*math/big.Int).FillBytes>(param:1.D, const:dst)), u8(const:0), param:2)"
+			msg := "cat(call<(*math/big.Int).Bytes>(param:1.D), u8(const:0), param:2)"
 			why := firstNonEmpty(
 				want("message", arg(ht, 1), msg),
 				want("modulus", arg(ht, 3), "call<(crypto/elliptic.Curve).Params>(param:0).N"),
